@@ -271,6 +271,9 @@ func (cl *Cluster) quiet() (ok bool, why string) {
 		if !st.Parked {
 			return false, fmt.Sprintf("client %s: broker is not waiting for input", c.Name)
 		}
+		if st.AwaitingAnswer {
+			return false, fmt.Sprintf("client %s: the broker has read a complete first packet and has neither answered nor closed yet", c.Name)
+		}
 	}
 	q, p := wasp.VerifPublishCounters()
 	if q != p {
